@@ -164,6 +164,13 @@ func resolveCtx(e *Env, ctx context.Context, rt reflect.Type) []reflect.Value {
 			panic(fmt.Sprintf("BROKEN-PLAN: null outcome at %s but Go type %s is not nilable", path, rt))
 		}
 		return []reflect.Value{zero, noErr}
+	case "adderr":
+		// the other way user code reports a failure: graphql.AddError + a nil result
+		if !nilable(rt) {
+			panic(fmt.Sprintf("BROKEN-PLAN: adderr outcome at %s but Go type %s is not nilable", path, rt))
+		}
+		graphql.AddError(ctx, errors.New("E@"+path))
+		return []reflect.Value{zero, noErr}
 	}
 	if rt.Kind() == reflect.Chan {
 		return []reflect.Value{e.subscribe(ctx, rt, path), noErr}
@@ -385,6 +392,22 @@ func (e *Env) Directive(ctx context.Context, next graphql.Resolver) (any, error)
 	path := graphql.GetFieldContext(ctx).Path().String()
 	e.logCall("@" + path)
 	switch e.Plan.Get("@" + path) {
+	case "error":
+		return nil, errors.New("E@" + path)
+	case "panic":
+		panic("P@" + path)
+	case "null":
+		return nil, nil
+	}
+	return next(ctx)
+}
+
+// QueryDirective is the universal implementation of the executable directive @fq (location
+// FIELD) that an OPERATION puts on a field: plan key "%"+path.
+func (e *Env) QueryDirective(ctx context.Context, next graphql.Resolver) (any, error) {
+	path := graphql.GetFieldContext(ctx).Path().String()
+	e.logCall("%" + path)
+	switch e.Plan.Get("%" + path) {
 	case "error":
 		return nil, errors.New("E@" + path)
 	case "panic":
